@@ -4,7 +4,7 @@ Level C for the operations that do not write packs: adding a loose object, clean
 import Dos.IOSpec
 import Dos.Proofs.Step
 
-namespace Dos.IO
+namespace Dos.IO.Basic
 open Dos
 
 -- some hypotheses of the stated theorems (`Bounded`, `c < garbage`, `Inv` for the `done_` facts) turn out not to be needed
@@ -576,4 +576,4 @@ theorem safe_delete {t : Tab} (wf : t.WF) {s : St} (inv : Inv t s) (hb : Bounded
       simp [hk] at this
     · trivial
 
-end Dos.IO
+end Dos.IO.Basic
